@@ -4,7 +4,7 @@
    t_delta = 2 - 0 - 1 = 1 >= 0 and DelayAdjustedSTDP(1, -1/2, 20, 15) potentiates by exp(-1/20); one step earlier the
    postsynaptic side has not spiked yet and nothing changes. *)
 From Coq Require Import List ZArith Bool Reals Lra Lia.
-From Inferno Require Import Base.Num Base.NumR Gen.Stdkernels C18.DelayAdj C18.DelayAdjProofs.
+From Inferno Require Import Base.Num Base.NumR Gen.Stdkernels C18.DelayAdj C18.EventProofs C18.DelayAdjProofs.
 Import ListNotations.
 Open Scope R_scope.
 
